@@ -26,8 +26,8 @@ PROFILES = {
     "C11": {"recipes": {"singleton_set": 0.04, "options_observe": 0.08}, "ops": {"wake": 0.25}, "set_extra": True, "owner": 0.3,
             "req": {"ssr": 0.16, "reload": 0.05, "incr": 0.08, "set": 0.2, "kill": 0.1, "signal": 0.1, "rm": 0.03, "add": 0.1, "quit": 0.01,
                     "ro": 0.13}},
-    "C14": {"recipes": {"signal_veto": 0.05, "reap_veto": 0.05}, "hooks": True, "stubborn": 0.2, "ops": {"wake": 0.45},
-            "req": {"ssr": 0.45, "reload": 0.08, "incr": 0.08, "set": 0.02, "kill": 0.12, "signal": 0.12, "rm": 0.02, "add": 0.02, "quit": 0.0, "ro": 0.02}},
+    "C14": {"recipes": {"signal_veto": 0.05, "reap_veto": 0.05, "set_hook": 0.08}, "hooks": True, "stubborn": 0.2, "ops": {"wake": 0.45}, "set_hooks": 0.8,
+            "req": {"ssr": 0.41, "reload": 0.08, "incr": 0.08, "set": 0.06, "kill": 0.12, "signal": 0.12, "rm": 0.02, "add": 0.02, "quit": 0.0, "ro": 0.02}},
     "C15": {"ops": {"wake": 0.3}, "req": {"add": 0.22, "rm": 0.15, "ssr": 0.25, "ro": 0.25, "incr": 0.03, "set": 0.02, "kill": 0.02, "signal": 0.02, "reload": 0.02, "quit": 0.0}},
     "C18": {"recipes": {"signal_veto": 0.03, "children_vanish": 0.04}, "ops": {"wake": 0.3}, "req": {"signal": 0.4, "kill": 0.3, "ssr": 0.1, "incr": 0.03, "set": 0.02, "rm": 0.02, "add": 0.03, "reload": 0.02, "quit": 0.0, "ro": 0.03}},
     "C19": {"start_first": 1.0, "recipes": {"topup_start": 0.15, "pattern_subset": 0.08}, "ops": {"wake": 0.75, "adv": 0.08, "die": 0.08, "check": 0.0, "xkill": 0.02, "fault": 0.03, "raw": 0.0, "sig": 0.0},
